@@ -285,13 +285,13 @@ def classify_unresolved(ctx, spec, stub, text, imported_modules):
     return None
 
 
-def check(ctx, tspecs, k):
+def check(ctx, tspecs, k, route="traces"):
     import nmtarget
     C = classes()
     LF = live_funcs()
     if k == 0 and any(has_kind(x, "TD") for t in tspecs for x in list(t[1]) + [y for y in (t[2], t[3]) if y is not None]):
         k = 10  # with the limit at zero no TypedDict reaches the stub generator
-    spec = ["STUB", tspecs, k]
+    spec = ["STUB", tspecs, k] + ([route] if route != "traces" else [])
     traces = []
     expect = {}
     mods = set()
@@ -321,9 +321,17 @@ def check(ctx, tspecs, k):
         labels.append("typeddict")
     if tdund:
         labels.append("typeddict-under-undescended-generic")
-    ctx.case(spec, nt, labels + ["k=%d" % k])
+    ctx.case(spec, nt, labels + ["k=%d" % k, "route:" + route])
     try:
-        text = build_module_stubs_from_traces(traces, k)["nmtarget"].render()
+        if route == "index-builder":
+            # the other public route to a module stub: traces logged one by one into the incremental index builder
+            from monkeytype.stubs import StubIndexBuilder
+            sib = StubIndexBuilder("nmtarget", k)
+            for t_ in traces:
+                sib.log(t_)
+            text = sib.get_stubs()["nmtarget"].render()
+        else:
+            text = build_module_stubs_from_traces(traces, k)["nmtarget"].render()
     except Exception as e:
         return ctx.fail(f"C11/render-raises:{type(e).__name__}", spec, repr(e))
     stub = stubread.read_stub(text, {n: v for n, v in vars(nmtarget).items() if not n.startswith("__")})
@@ -533,9 +541,9 @@ def shard(ctx):
     q = ctx.tier == "quick"
 
     def factory(ctx):
-        @given(st.lists(trace_spec, min_size=1, max_size=3), st.sampled_from([0, 10]))
-        def test(tspecs, k):
-            check(ctx, tspecs, k)
+        @given(st.lists(trace_spec, min_size=1, max_size=3), st.sampled_from([0, 10]), st.sampled_from(["traces", "traces", "index-builder"]))
+        def test(tspecs, k, route):
+            check(ctx, tspecs, k, route)
         return test
     core.run_hypothesis(ctx, factory, 700 if q else 6000)
 
@@ -545,4 +553,4 @@ def run(ctx):
 
 
 def replay(ctx, case):
-    check(ctx, case[1], case[2])
+    check(ctx, case[1], case[2], case[3] if len(case) > 3 else "traces")
